@@ -12,6 +12,9 @@ ENGINES = [
     {'name': 'reference-vectors', 'path': 'specs/Codec.tla, specs/TimeArith.tla, specs/Overlay.tla + harness/src/bin/{codecvec,codecfuzz,timevec,overlay}.rs',
      'serves_properties': ['C04', 'C16', 'C18'],
      'kind_free_text': 'TLC evaluates an independent TLA+ reference (codec, limb arithmetic, exact overlay clock) over enumerated families / bounded behaviours; every vector or edge is applied to the real code and compared'},
+    {'name': 'network-model', 'path': 'specs/Network.tla, specs/Tree.tla, specs/MCNet.tla, specs/TraceNet.tla + harness/src/bin/netsim.rs',
+     'serves_properties': ['C01'],
+     'kind_free_text': 'N copies of the instance specification composed with a segment/round model; TLC explores every schedule of small networks; each scheduling decision is executed on N real instances wired in memory, and free-running simulations of the real code are validated against the trace specification'},
     {'name': 'instance-edges', 'path': 'specs/Instance.tla + specs/MC*.tla + harness/src/bin/replay.rs',
      'serves_properties': ['C03', 'C17', 'C05', 'C06', 'C07', 'C08', 'C09', 'C10', 'C11', 'C12', 'C14', 'C15'],
      'kind_free_text': 'TLC enumerates every edge of the bounded state graph of the instance/port specification; each edge is replayed on fresh real objects and the projection compared'},
@@ -187,5 +190,14 @@ CLAIMED['C02'] = {
              'set_frequency / step_clock act on a simulated oscillator, so the loop is closed; the host obeys the timer actions. Each run logs the true offset at every Sync arrival and every '
              'clock command; TLC accepts the trace iff after Tconv = max(1200 s, 600 intervals) the offset stays below 0.5 us + 3 x jitter and the clock is never stepped.'),
     'note': 'bounds are empirical (calibrated on 12 150 runs of the unchanged tree, margin >= 3); the grid is sampled in the quick tier and complete (2430 cells) in the thorough tier',
+}
+CLAIMED['C01'] = {
+    'engine': 'network-model', 'level': 'model_checking', 'design_ref': 'DESIGN.md section 4, C01',
+    'technique': 'TLA+ composition of N instance specifications (Network.tla) model-checked by TLC for Settle (tree predicate after K quiet rounds) and NoFlap; every explored scheduling decision replayed on N real PtpInstances exchanging their real Announce octets; free-running simulations of the real code validated against TraceNet.tla',
+    'text': ('Network.tla instantiates Instance.tla once per node and adds segments, rounds (announce interval = BMCA interval), receipt timeouts between T and 2T rounds and one fault '
+             '(cut a segment, silence a node, change a quality). TLC explores the complete state graph of every two-node ranking (incl. clockClass 6 and slave-only) and shows the '
+             'convergence bound K is tight; three- and four-node chains, stars, rings and shared segments are covered by simulation. Each edge is executed on real instances and the '
+             'port states, parents, grandmasters and stepsRemoved compared; free runs with real timer durations, delays and drift are logged and checked by TLC against the tree predicate.'),
+    'note': 'restore-link faults and Sync/Delay traffic are not modelled; two ports of one instance on one segment is a recorded finding (steady state flaps); slave-only nodes are configured per IEEE 1588 (clockClass 255, not ranked above the grandmaster)',
 }
 NOT_CLAIMED = {}
